@@ -333,13 +333,10 @@ func (e *Ex) load(u *ssa.UnOp, d int) string {
 	}
 	if a, ok := base.(*ssa.Alloc); ok {
 		if stores, ok2 := cellStores(a); ok2 && len(stores) > 0 {
-			// flow-sensitive refinement inside one block/function: choose dominating unique store if any
-			if s := reachingStore(stores, u); s != nil {
-				return e.expr(s.Val, d+1)
-			}
+			rs := cellReaching(stores, u)
 			e.seen[u] = true
 			set := map[string]bool{}
-			for _, s := range stores {
+			for _, s := range rs {
 				set[e.expr(s.Val, d+1)] = true
 			}
 			delete(e.seen, u)
@@ -363,13 +360,111 @@ func (e *Ex) load(u *ssa.UnOp, d int) string {
 	return e.expr(addr, d+1)
 }
 
+// deferredOnly reports whether fn (a closure) is only ever invoked through a defer statement of its parent.
+func deferredOnly(fn *ssa.Function) bool {
+	parent := fn.Parent()
+	if parent == nil {
+		return false
+	}
+	n := 0
+	for _, b := range parent.Blocks {
+		for _, ins := range b.Instrs {
+			mc, ok := ins.(*ssa.MakeClosure)
+			if !ok || mc.Fn != fn {
+				continue
+			}
+			n++
+			refs := mc.Referrers()
+			if refs == nil {
+				return false
+			}
+			for _, r := range *refs {
+				d, ok := r.(*ssa.Defer)
+				if !ok || d.Call.Value != ssa.Value(mc) {
+					if _, isDbg := r.(*ssa.DebugRef); isDbg {
+						continue
+					}
+					return false
+				}
+			}
+		}
+	}
+	return n > 0
+}
+
+// afterRunDefers: can `load` execute after a rundefers instruction of its function (or in the recover block)?
+func afterRunDefers(load ssa.Instruction) bool {
+	fn := load.Parent()
+	if fn.Recover != nil && load.Block() == fn.Recover {
+		return true
+	}
+	for _, b := range fn.Blocks {
+		for _, ins := range b.Instrs {
+			if _, ok := ins.(*ssa.RunDefers); ok {
+				if ReachableAvoiding(ins, nil)(load) {
+					return true
+				}
+			}
+		}
+	}
+	return false
+}
+
+// cellReaching returns the stores whose value may be observed by `load` of a local cell.
+// Local stores are refined flow-sensitively (a unique dominating last store wins); stores made by
+// closures are included unless the closure only runs at rundefers and the load cannot come after one.
+func cellReaching(stores []*ssa.Store, load ssa.Instruction) []*ssa.Store {
+	var local, foreign []*ssa.Store
+	for _, s := range stores {
+		if s.Parent() == load.Parent() {
+			local = append(local, s)
+		} else {
+			foreign = append(foreign, s)
+		}
+	}
+	var out []*ssa.Store
+	if s := reachingStore(local, load); s != nil {
+		out = append(out, s)
+	} else {
+		// keep local stores that can reach the load at all
+		for _, s := range local {
+			if ReachableAvoiding(s, nil)(load) || load.Parent().Recover == load.Block() {
+				out = append(out, s)
+			}
+		}
+	}
+	for _, s := range foreign {
+		if isAncestor(load.Parent(), s.Parent()) && deferredOnly(directChild(load.Parent(), s.Parent())) && !afterRunDefers(load) {
+			continue
+		}
+		out = append(out, s)
+	}
+	return out
+}
+
+func isAncestor(anc, fn *ssa.Function) bool {
+	for p := fn.Parent(); p != nil; p = p.Parent() {
+		if p == anc {
+			return true
+		}
+	}
+	return false
+}
+
+func directChild(anc, fn *ssa.Function) *ssa.Function {
+	for fn.Parent() != nil && fn.Parent() != anc {
+		fn = fn.Parent()
+	}
+	return fn
+}
+
 // reachingStore returns the unique store that must be the last write before the load: a store in the
 // same function that dominates the load, with no other store on any path between them.
 func reachingStore(stores []*ssa.Store, load ssa.Instruction) *ssa.Store {
 	var cands []*ssa.Store
 	for _, s := range stores {
 		if s.Parent() != load.Parent() {
-			return nil // stores from closures: no ordering known
+			return nil
 		}
 	}
 	for _, s := range stores {
@@ -378,18 +473,6 @@ func reachingStore(stores []*ssa.Store, load ssa.Instruction) *ssa.Store {
 		}
 	}
 	for _, s := range cands {
-		// barrier: all other stores
-		barrier := map[ssa.Instruction]bool{}
-		for _, o := range stores {
-			if o != s {
-				barrier[o] = true
-			}
-		}
-		reach := ReachableAvoiding(s, barrier)
-		if !reach(load) {
-			continue
-		}
-		// every other store must be unable to reach the load without passing s again
 		okAll := true
 		for _, o := range stores {
 			if o == s {
